@@ -955,27 +955,27 @@ class PeptideVariantGraph():
                 continue
             cur_orfs = [orf.copy() for orf in orfs]
             if in_cds:
-                cur_start_gain = copy.copy(cur_orfs[0].start_gain)
-                if not cur_start_gain:
-                    cur_start_gain = set()
+                # frameshifting and stop-lost variants met so far: every peptide
+                # downstream depends on all of them, not only on the first one
+                cur_start_gain = set(cur_orfs[0].start_gain or ())
 
-                    for variant in out_node.variants:
-                        if variant.variant.is_frameshifting():
-                            cur_start_gain.add(variant.variant)
+                for variant in out_node.variants:
+                    if variant.variant.is_frameshifting():
+                        cur_start_gain.add(variant.variant)
 
-                    for variant in target_node.variants:
-                        if variant.variant.is_frameshifting():
-                            cur_start_gain.add(variant.variant)
+                for variant in target_node.variants:
+                    if variant.variant.is_frameshifting():
+                        cur_start_gain.add(variant.variant)
 
-                    upstream_indels = target_node.upstream_indel_map.get(cursor.in_node)
-                    if upstream_indels:
-                        for variant in upstream_indels:
-                            if variant.is_frameshifting():
-                                cur_start_gain.add(variant)
+                upstream_indels = target_node.upstream_indel_map.get(cursor.in_node)
+                if upstream_indels:
+                    for variant in upstream_indels:
+                        if variant.is_frameshifting():
+                            cur_start_gain.add(variant)
 
-                    stop_index = self.known_orf[1]
-                    stop_lost = target_node.get_stop_lost_variants(stop_index)
-                    cur_start_gain.update(stop_lost)
+                stop_index = self.known_orf[1]
+                stop_lost = target_node.get_stop_lost_variants(stop_index)
+                cur_start_gain.update(stop_lost)
                 cur_cleavage_gain = copy.copy(cleavage_gain)
                 cleavage_gain_down = out_node.get_cleavage_gain_from_downstream()
                 cur_cleavage_gain.extend(cleavage_gain_down)
